@@ -161,7 +161,7 @@ def run(ctx):
         else:
             r.bad("drop", "dropping a CommandReader no longer reaps the child", fn=d, construct="drop")
 
-    with ctx.rule("C18.STDERR", "asynchronous stderr wired on; both pipes configured", floor=4, kind="WIRE") as r:
+    with ctx.rule("C18.STDERR", "asynchronous stderr wired on; both pipes configured; stderr drained to EOF", floor=5, kind="WIRE") as r:
         f = facts.fn("rg::search::SearchWorkerBuilder::new")
         eb = ExprBuilder(f)
         for callee, label in ((CRB + "::async_stderr", "preprocessor"), (DRB + "::async_stderr", "decompressor")):
@@ -199,6 +199,18 @@ def run(ctx):
         else:
             r.bad("builder", "CommandReaderBuilder::build does not pipe both streams / select the stderr reader by the flag", fn=g,
                   construct="builder")
+        # the stderr pipe is drained to its end: a reader that stops early closes the pipe under a child that is still
+        # writing (SIGPIPE / EPIPE kills an otherwise successful preprocessor and the file's results are lost)
+        k = facts.fn("grep_cli::process::stderr_to_command_error")
+        ebk = ExprBuilder(k)
+        rte = k.calls_to("std::io::Read::read_to_end")
+        capped = [c for c in k.calls() if c.path.split("::")[-1] in ("take", "read_exact", "read") and c.path.startswith("std::io::")]
+        if rte and not capped and not any(is_call(x, "std::io::Read::take") for c in rte for x in walk(ebk.operand(c.args[0]))):
+            r.ok("drain", "stderr_to_command_error reads the child's stderr to EOF", fn=k)
+        else:
+            r.bad("drain", "stderr_to_command_error stops reading the child's stderr before EOF (%s): dropping the pipe kills a "
+                  "child that is still writing, although it would have succeeded" % (capped[0].path.split("::")[-1] if capped else
+                                                                                     "no read_to_end"), fn=k, construct="stderr-drain")
         h = facts.fn(DRB + "::async_stderr")
         if h.calls_to(CRB + "::async_stderr"):
             r.ok("zip|forward", "DecompressionReaderBuilder::async_stderr forwards to its command builder", fn=h)
